@@ -1,7 +1,9 @@
 ---- MODULE RecordAccessTrace ----
 \* Judges histories recorded from the real database package (driver harness/cmd/dbacc, mode "hist") against
 \* spec/RecordAccess.tla (properties C03 and C14).  trace.ndjson, one JSON object per line:
-\*   {"e":"new","loose":b, ...}                       start of a history (fresh database)
+\*   {"e":"new","loose":b,"alias":b, ...}             start of a history (fresh database); loose: key-prefix handling of
+\*                                                    the backend is not judged (fstree); alias: the backend hands out
+\*                                                    its live record objects (hashmap)
 \*   {"e":"op","op":{..},"res":{"err","rec","items","flag","cnt","vh","panic"},
 \*    "feeds":[{"items":[..],"closed":b} x NS],"calls":[{"h","ph","k"}..],
 \*    "store":[{"present","n","sec","crown","exp"} x 4]}
@@ -14,10 +16,10 @@ EXTENDS RecordAccess, Json
 
 Trace == ndJsonDeserialize("trace.ndjson")
 
-VARIABLES l, st, loose, dead
-vars == <<l, st, loose, dead>>
+VARIABLES l, st, loose, alias, dead
+vars == <<l, st, loose, alias, dead>>
 
-Init == l = 1 /\ st = InitState /\ loose = FALSE /\ dead = FALSE
+Init == l = 1 /\ st = InitState /\ loose = FALSE /\ alias = FALSE /\ dead = FALSE
 
 ObsItems(res) == [res EXCEPT !.items = Range(res.items)]
 
@@ -30,20 +32,20 @@ Verdict(s, ev) ==
                  \cup (IF LeakWrite(s, o, ev.store) THEN {"leak-write"} ELSE {})
     IN IF ev.res.panic # "" THEN {"panic"}
        ELSE IF leaks # {} THEN leaks
-       ELSE IF \E x \in X : ResMatch(x.res, ev.res) /\ StoreMatch(x, ev.store) /\ FeedsMatch(x, ev.feeds) /\ CallsMatch(x, ev.calls) THEN {}
+       ELSE IF \E x \in X : ResMatch(x.res, ev.res) /\ StoreMatch(x, ev.store) /\ FeedsMatch(x, ev.feeds, alias) /\ CallsMatch(x, ev.calls) THEN {}
        ELSE LET R == {x \in X : ResMatch(x.res, ev.res)} IN
             IF R = {} THEN {"result"}
             ELSE LET parts == (IF \E x \in R : StoreMatch(x, ev.store) THEN {} ELSE {"store"})
-                              \cup (IF \E x \in R : FeedsMatch(x, ev.feeds) THEN {} ELSE {"feed"})
+                              \cup (IF \E x \in R : FeedsMatch(x, ev.feeds, alias) THEN {} ELSE {"feed"})
                               \cup (IF \E x \in R : CallsMatch(x, ev.calls) THEN {} ELSE {"hooks"})
                  IN IF parts = {} THEN {"state"} ELSE parts
 
 After(s, ev) ==
     (CHOOSE x \in Step(s, ev.op, loose) :
-        ResMatch(x.res, ev.res) /\ StoreMatch(x, ev.store) /\ FeedsMatch(x, ev.feeds) /\ CallsMatch(x, ev.calls)).st
+        ResMatch(x.res, ev.res) /\ StoreMatch(x, ev.store) /\ FeedsMatch(x, ev.feeds, alias) /\ CallsMatch(x, ev.calls)).st
 
 New == /\ l <= Len(Trace) /\ Trace[l].e = "new"
-       /\ st' = InitState /\ loose' = Trace[l].loose /\ dead' = FALSE
+       /\ st' = InitState /\ loose' = Trace[l].loose /\ alias' = Trace[l].alias /\ dead' = FALSE
        /\ l' = l + 1
 
 DoOp == /\ l <= Len(Trace) /\ Trace[l].e = "op"
@@ -52,7 +54,7 @@ DoOp == /\ l <= Len(Trace) /\ Trace[l].e = "op"
                 IF V = {} THEN st' = After(st, Trace[l]) /\ dead' = FALSE
                 ELSE /\ PrintT(<<"@@", ToJson([line |-> l, why |-> V])>>)
                      /\ dead' = TRUE /\ st' = st
-        /\ l' = l + 1 /\ UNCHANGED loose
+        /\ l' = l + 1 /\ UNCHANGED <<loose, alias>>
 
 Next == New \/ DoOp
 Spec == Init /\ [][Next]_vars
